@@ -157,6 +157,30 @@ Dominates(j, i) ==
   /\ Len(j.dangling) = Len(i.dangling)
   /\ \A k \in 1..Len(i.dangling) : j.dangling[k].prio = i.dangling[k].prio /\ GeAll(j.dangling[k].use, i.dangling[k].use)
 
+\* One raise step as recorded in a trace: e = [what, k, by] raises consumption input `what` (of pod / app / dangling
+\* metric number k) by by[r] >= 0.  RaiseOK says the step is meaningful, ApplyRaise gives the new input
+\* (MC_Reclaim checks that it always Dominates the old one).
+AddRL(a, b) == [a EXCEPT !.cpu = @ + b.cpu, !.mem = @ + b.mem]
+SubRL(a, b) == [a EXCEPT !.cpu = @ - b.cpu, !.mem = @ - b.mem]
+RaiseOK(i, e) ==
+  /\ e.by.cpu >= 0 /\ e.by.mem >= 0
+  /\ e.what \in {"sys", "anno", "kres", "margin", "req", "use", "dangling", "app"}
+  /\ e.what = "kres" => GeAll(i.alloc, e.by)
+  /\ e.what = "margin" => GeAll(i.thr, e.by)
+  /\ e.what = "req" => e.k \in 1..Len(i.pods)
+  /\ e.what = "use" => (e.k \in 1..Len(i.pods) /\ i.pods[e.k].metric)
+  /\ e.what = "dangling" => e.k \in 1..Len(i.dangling)
+  /\ e.what = "app" => e.k \in 1..Len(i.apps)
+ApplyRaise(i, e) ==
+  CASE e.what = "sys"      -> [i EXCEPT !.sys = AddRL(@, e.by)]
+    [] e.what = "anno"     -> [i EXCEPT !.anno = AddRL(@, e.by)]
+    [] e.what = "kres"     -> [i EXCEPT !.alloc = SubRL(@, e.by)]
+    [] e.what = "margin"   -> [i EXCEPT !.thr = SubRL(@, e.by)]
+    [] e.what = "req"      -> [i EXCEPT !.pods[e.k].req = AddRL(@, e.by)]
+    [] e.what = "use"      -> [i EXCEPT !.pods[e.k].use = AddRL(@, e.by)]
+    [] e.what = "dangling" -> [i EXCEPT !.dangling[e.k].use = AddRL(@, e.by)]
+    [] e.what = "app"      -> [i EXCEPT !.apps[e.k].use = AddRL(@, e.by)]
+
 \* raising consumption never raises what is published (node level and every zone)
 MonoOK(prev, new) ==
   /\ \A r \in Res : Amount(new, r) <= Amount(prev, r)
@@ -204,6 +228,20 @@ MidDominates(j, i) ==
   /\ \A k \in 1..Len(i.pods) :
        /\ j.pods[k].prio = i.pods[k].prio /\ j.pods[k].qos = i.pods[k].qos /\ j.pods[k].phase = i.pods[k].phase
        /\ GeAll(j.pods[k].req, i.pods[k].req)
+MidRaiseOK(m, e) ==
+  /\ e.by.cpu >= 0 /\ e.by.mem >= 0
+  /\ e.what \in {"sys", "anno", "kres", "req", "app", "usage"}
+  /\ e.what = "kres" => GeAll(m.alloc, e.by)
+  /\ e.what = "req" => e.k \in 1..Len(m.pods)
+  /\ e.what = "app" => e.k \in 1..Len(m.apps)
+  /\ e.what = "usage" => m.usage.has
+MidApplyRaise(m, e) ==
+  CASE e.what = "sys"   -> [m EXCEPT !.sys = AddRL(@, e.by)]
+    [] e.what = "anno"  -> [m EXCEPT !.anno = AddRL(@, e.by)]
+    [] e.what = "kres"  -> [m EXCEPT !.alloc = SubRL(@, e.by)]
+    [] e.what = "req"   -> [m EXCEPT !.pods[e.k].req = AddRL(@, e.by)]
+    [] e.what = "app"   -> [m EXCEPT !.apps[e.k].use = AddRL(@, e.by)]
+    [] e.what = "usage" -> [m EXCEPT !.usage = AddRL(@, e.by)]
 MidMonoOK(prev, new) == \A r \in Res : Amount(new, r) <= Amount(prev, r)
 
 (***************************************************************************)
